@@ -319,6 +319,61 @@ func c10UnmountFromConsumer(n int, dotu bool, P int) Scenario {
 	return vsScenario(&VsSpec{Name: name, Body: body, Check: check, P: P, Delay: true})
 }
 
+// c10TagOutstanding: requests issued through the pipelined Tag interface are
+// outstanding calls too: when the connection fails each of them completes on the
+// Tag's channel, carrying an error, and nothing blows up.
+func c10TagOutstanding(n int, fault string, dotu bool, P int) Scenario {
+	var got, withErr int
+	name := fmt.Sprintf("%d requests outstanding on a Tag, fault=%s dotu=%v", n, fault, dotu)
+	body := func() {
+		got, withErr = 0, 0
+		resetClientGlobals()
+		ce, se := vs.Pipe("clnt", "peer")
+		peer := NewPeer(se, dotu)
+		peer.Batch = n + 1 // never answers
+		vs.Go("peer", peer.Serve)
+		c := go9p.NewClnt(ce, 8192, dotu)
+		rc := make(chan *go9p.Req, n)
+		tg := c.TagAlloc(rc)
+		for i := 0; i < n; i++ {
+			if err := tg.Read(mkFid(c, uint32(40+i)), uint64(i), 8); err != nil {
+				vs.Fail("Tag.Read: %v", err)
+			}
+		}
+		vs.Idle()
+		vs.Window(true)
+		switch fault {
+		case "peerclose":
+			se.Close()
+		case "unmount":
+			vs.Go("unmounter", func() { c.Unmount() })
+		case "garbage", "unknowntag":
+			se.Write(c10BadFrame(fault, dotu))
+		}
+		vs.Go("consumer", func() {
+			for got < n {
+				r := vs.Recv(rc)
+				got++
+				if r.Err != nil {
+					withErr++
+				}
+			}
+		})
+		vs.Idle()
+		vs.Window(false)
+	}
+	check := stdCheck("C10", func(x *vs.Exec) *Viol {
+		if got != n {
+			return &Viol{Sig: "C10/tag-request-never-completed", Msg: fmt.Sprintf("%d requests were outstanding on a Tag when the connection failed (%s): %d completed (parked: %v)", n, fault, got, x.Parked)}
+		}
+		if withErr != n {
+			return &Viol{Sig: "C10/tag-request-completed-without-error", Msg: fmt.Sprintf("%d requests were outstanding on a Tag when the connection failed (%s) and were never answered: %d of them completed without an error", n, fault, n-withErr)}
+		}
+		return nil
+	}, nil)
+	return vsScenario(&VsSpec{Name: name, Body: body, Check: check, P: P, Delay: true, Horizon: c10Horizon, Livelock: true})
+}
+
 func c10Scenarios(tier string) []Scenario {
 	var out []Scenario
 	two := []callSpec{{"read", 10}, {"stat", 20}}
@@ -383,6 +438,7 @@ func c10Scenarios(tier string) []Scenario {
 		out = append(out, c10Scenario(c10Params{Calls: three[:1], Fault: "cut", At: 0, Late: lateC, Dotu: true, P: D + 2}))
 	}
 	out = append(out, c10UnmountFromConsumer(2, false, D), c10UnmountFromConsumer(3, true, D))
+	out = append(out, c10TagOutstanding(1, "peerclose", false, D), c10TagOutstanding(2, "unmount", true, D), c10TagOutstanding(3, "garbage", false, D), c10TagOutstanding(2, "unknowntag", true, D))
 	// the transport reports its failure as a timeout (the application set a read deadline)
 	for _, off := range []int{0, 5, 27, 28, 60} {
 		out = append(out, c10Scenario(c10Params{Calls: two, Fault: "timeout", At: off, OneWrite: off%2 == 0, Dotu: off%3 == 0, Late: off%5 == 0, P: D}))
